@@ -375,7 +375,7 @@ def run(ctx: Ctx):
     ctx.exhaustive("all DFAs (complete and partial, all final sets) with ≤2 states over {a,b} × every k ≤ "
                    + ("6" if ctx.thorough() else "5") + " (count, words, all DP tables), min/max/empty/finite, cardinality/len, "
                    "iteration prefixes, random_word" + (" incl. exact output distribution for k ≤ 3" if ctx.thorough() else ""))
-    for _ in range(ctx.budget(900, 22000)):
+    for _ in range(ctx.budget(900, 18000)):
         d, kind = L.shaped_dfa(rng, 6)
         ctx.stat(f"kind:{kind}")
         check_dfa(ctx, d, "random", uniform=rng.random() < 0.15)
